@@ -767,6 +767,20 @@ def rule_yaml_safe(ctx, rid):
                         return
                 cases.append((tests, t))
             walk(val, [])
+            # ... or the value goes through a small helper with the if-chain: its return paths are the cases
+            hv = val
+            if hv[0] == 'call' and hv[1] in P.funcs and hv[1] != fi.qualname:
+                h = P.funcs[hv[1]]
+                cases[:] = [cs for cs in cases if cs[1] is not val]
+                for he in Evaluator(P).run(h):
+                    if he.kind != 'return':
+                        continue
+                    tests = []
+                    for c, truth, ln in he.state.conds:
+                        el, tys = types_of(c)
+                        if tys:
+                            tests.append((tuple(tys), truth, el))
+                    cases.append((tests, he.value))
     want = {'numpy.ndarray': ('arrays are converted with .tolist()',
                               lambda el, v: v == ('meth', 'tolist', el, (), ())),
             'builtins.tuple': ('tuples become lists',
@@ -799,10 +813,15 @@ def rule_list_like_options(ctx, rid):
     P = ctx.P
     SEQ = {'numpy.ndarray', 'builtins.tuple'}
     n = 0
+    option_names = set()
+    for v in VARIANTS:
+        option_names |= set(P.func('emd.sift.' + v).all_formals()[1:])
+    for stage_q in STAGES.values():
+        option_names |= set(P.func(stage_q).all_formals()[1:])
     for q, fi in sorted(P.funcs.items()):
         if fi.module.name != 'emd.sift' or fi.cls is not None or fi.name == '_array_or_tuple_to_list':
             continue
-        formals = set(fi.all_formals())
+        formals = set(fi.all_formals()) & option_names
         for c in P.calls_in(fi):
             if not (isinstance(c.func, ast.Name) and c.func.id == 'isinstance' and len(c.args) == 2
                     and isinstance(c.args[0], ast.Name) and c.args[0].id in formals):
